@@ -27,7 +27,17 @@
 //     is textually the type of such a field, a local defined from such an expression or from its Clone().
 //     Fields are numbered in declaration order, locks and data fields separately (as the skeleton does).
 //
-// Usage: instr -repo /repo -file internal/rules/repository_impl.go -type repository -out FILE -json FILE
+// The guarded state is identified STRUCTURALLY, not by names: mutexes by their type, anywhere in the struct including
+// structs of the package nested in it by value (embedded or as named fields; their methods are instrumented too, with
+// the receiver standing for that part of the state); leaves are keyed by their path ("routeIndex.index") and numbered
+// depth first in declaration order, mutexes and data fields separately - the same numbering as harness/tools/skel.
+// Every file of the package that declares such a struct or one of their methods gets an instrumented copy.
+// With -access FILE a Go file with accessors for the drivers is written (c07GetIndex / c07SetIndex: the field of a
+// pointer type; c07GetKnown / c07SetKnown: the field of a slice type whose element is an interface type name; c07GetDefault /
+// c07SetDefault: the field whose type is that element type; c07LockAddrs: the addresses of the mutexes in id order),
+// so that no driver mentions a field name.
+//
+// Usage: instr -repo /repo -file internal/rules/repository_impl.go -type repository -outdir DIR -json FILE [-access FILE]
 package main
 
 import (
@@ -57,8 +67,94 @@ type instr struct {
 	atomLock map[string]int    // sync/atomic.Pointer[T] field -> its pseudo lock
 
 	recv  *ast.Object
+	node  *snode // the part of the guarded state the receiver of the current method stands for
 	env   map[*ast.Object]bool
 	notes []string
+}
+
+// snode: the guarded struct type or a struct of the package nested in it by value
+type snode struct {
+	typeName string
+	prefix   string
+	fields   []sfield
+}
+
+type sfield struct {
+	name     string
+	embedded bool
+	leaf     string
+	sub      *snode
+}
+
+func (n *snode) field(name string) (sfield, bool) {
+	for _, f := range n.fields {
+		if f.name == name {
+			return f, true
+		}
+	}
+
+	for _, f := range n.fields {
+		if f.embedded && f.sub != nil {
+			if g, ok := f.sub.field(name); ok {
+				return g, true
+			}
+		}
+	}
+
+	return sfield{}, false
+}
+
+// fullPath: the explicit selector path (embedded type names included) of the field `name` below n
+func (n *snode) fullPath(name string) (string, bool) {
+	for _, f := range n.fields {
+		if f.name == name {
+			return name, true
+		}
+	}
+
+	for _, f := range n.fields {
+		if f.embedded && f.sub != nil {
+			if p, ok := f.sub.fullPath(name); ok {
+				return f.name + "." + p, true
+			}
+		}
+	}
+
+	return "", false
+}
+
+func (n *snode) find(typeName string) []*snode {
+	var out []*snode
+
+	if n.typeName == typeName {
+		out = append(out, n)
+	}
+
+	for _, f := range n.fields {
+		if f.sub != nil {
+			out = append(out, f.sub.find(typeName)...)
+		}
+	}
+
+	return out
+}
+
+func selChain(e ast.Expr) (*ast.Ident, []string) {
+	var names []string
+
+	for {
+		switch v := e.(type) {
+		case *ast.ParenExpr:
+			e = v.X
+		case *ast.SelectorExpr:
+			names = append([]string{v.Sel.Name}, names...)
+			e = v.X
+		case *ast.Ident:
+			return v, names
+		default:
+			return nil, nil
+		}
+	}
 }
 
 func fail(format string, a ...any) {
@@ -75,19 +171,58 @@ func strLit(s string) ast.Expr {
 	return &ast.BasicLit{Kind: token.STRING, Value: strconv.Quote(s)}
 }
 
-// recvField: e is `recv.f`
+// recvField: e is a path from the receiver to a leaf field (`recv.f`, `recv.sub.f`, promoted fields included);
+// returns the key of the leaf
 func (x *instr) recvField(e ast.Expr) (string, bool) {
-	sel, ok := e.(*ast.SelectorExpr)
-	if !ok {
+	if _, ok := e.(*ast.SelectorExpr); !ok {
 		return "", false
 	}
 
-	id, ok := sel.X.(*ast.Ident)
-	if !ok || id.Obj == nil || id.Obj != x.recv {
+	id, names := selChain(e)
+	if id == nil || id.Obj == nil || id.Obj != x.recv || len(names) == 0 || x.node == nil {
 		return "", false
 	}
 
-	return sel.Sel.Name, true
+	cur := x.node
+
+	for i, n := range names {
+		f, ok := cur.field(n)
+		if !ok {
+			return "", false
+		}
+
+		if f.sub == nil {
+			return f.leaf, i == len(names)-1
+		}
+
+		cur = f.sub
+	}
+
+	return "", false
+}
+
+// rootLeaf: e is, or is reached through, a leaf field of the receiver
+func (x *instr) rootLeaf(e ast.Expr) (string, bool) {
+	for {
+		if f, ok := x.recvField(e); ok {
+			return f, true
+		}
+
+		switch v := e.(type) {
+		case *ast.SelectorExpr:
+			e = v.X
+		case *ast.IndexExpr:
+			e = v.X
+		case *ast.SliceExpr:
+			e = v.X
+		case *ast.StarExpr:
+			e = v.X
+		case *ast.ParenExpr:
+			e = v.X
+		default:
+			return "", false
+		}
+	}
 }
 
 func (x *instr) dataField(e ast.Expr) (int, bool) {
@@ -247,8 +382,8 @@ func (x *instr) expr(e ast.Expr) ast.Expr {
 		x.exprs(v.Args)
 	case *ast.UnaryExpr:
 		if v.Op == token.AND {
-			if root := rootOf(v.X); root != nil {
-				if _, ok := x.recvField(root); ok && !x.lockField(root) {
+			if f, ok := x.rootLeaf(v.X); ok {
+				if _, isLock := x.lockID[f]; !isLock {
 					x.notes = append(x.notes, "address of a guarded field is taken")
 
 					return schedCall("Addr", v)
@@ -305,55 +440,23 @@ func (x *instr) expr(e ast.Expr) ast.Expr {
 	return e
 }
 
-// rootOf: the innermost `a.b` of a.b.c[i].d ... (nil if the expression is rooted at an identifier only)
-func rootOf(e ast.Expr) ast.Expr {
-	for {
-		switch v := e.(type) {
-		case *ast.SelectorExpr:
-			if _, ok := v.X.(*ast.Ident); ok {
-				return v
-			}
-
-			e = v.X
-		case *ast.IndexExpr:
-			e = v.X
-		case *ast.SliceExpr:
-			e = v.X
-		case *ast.StarExpr:
-			e = v.X
-		case *ast.ParenExpr:
-			e = v.X
-		default:
-			return nil
-		}
-	}
-}
-
 // deepRootVar: the assignment target e is reached THROUGH the plain (non-pointer) data field recv.f (recv.f.g,
 // recv.f[i], ...): the statement writes the field's value
 func (x *instr) deepRootVar(e ast.Expr) (int, bool) {
-	for {
-		switch v := e.(type) {
-		case *ast.SelectorExpr:
-			if f, ok := x.recvField(v); ok {
-				id, isData := x.varID[f]
-				_, isPtr := x.ptrType[f]
-				_, isAtomic := x.atomLock[f]
-
-				return id, isData && !isPtr && !isAtomic
-			}
-
-			e = v.X
-		case *ast.IndexExpr:
-			e = v.X
-		case *ast.StarExpr:
-			e = v.X
-		case *ast.ParenExpr:
-			e = v.X
-		default:
-			return 0, false
-		}
+	if _, exact := x.recvField(e); exact {
+		return 0, false
 	}
+
+	f, ok := x.rootLeaf(e)
+	if !ok {
+		return 0, false
+	}
+
+	id, isData := x.varID[f]
+	_, isPtr := x.ptrType[f]
+	_, isAtomic := x.atomLock[f]
+
+	return id, isData && !isPtr && !isAtomic
 }
 
 // lhs: an assignment target that is NOT exactly a guarded data field
@@ -398,10 +501,16 @@ func (x *instr) lhs(e ast.Expr) ast.Expr {
 }
 
 func copyRecvField(e ast.Expr) ast.Expr {
-	sel := e.(*ast.SelectorExpr) //nolint:forcetypeassert
-	id := sel.X.(*ast.Ident)     //nolint:forcetypeassert
+	switch v := e.(type) {
+	case *ast.ParenExpr:
+		return copyRecvField(v.X)
+	case *ast.SelectorExpr:
+		return &ast.SelectorExpr{X: copyRecvField(v.X), Sel: ast.NewIdent(v.Sel.Name)}
+	case *ast.Ident:
+		return &ast.Ident{Name: v.Name, Obj: v.Obj}
+	}
 
-	return &ast.SelectorExpr{X: &ast.Ident{Name: id.Name, Obj: id.Obj}, Sel: ast.NewIdent(sel.Sel.Name)}
+	return e
 }
 
 func (x *instr) bind(lhs, rhs ast.Expr, tok token.Token) {
@@ -629,35 +738,87 @@ func recvTypeName(fd *ast.FuncDecl) string {
 }
 
 type jsonOut struct {
-	Locks    []string `json:"locks"`
-	LockKind []string `json:"lock_kinds"`
-	Vars     []string `json:"vars"`
-	PtrVars  []string `json:"ptr_vars"`
-	Methods  []string `json:"methods"`
-	Notes    []string `json:"notes"`
+	Locks    []string          `json:"locks"`
+	LockKind []string          `json:"lock_kinds"`
+	Vars     []string          `json:"vars"`
+	PtrVars  []string          `json:"ptr_vars"`
+	Methods  []string          `json:"methods"`
+	Files    map[string]string `json:"files"` // file of the checkout (relative) -> instrumented copy
+	Access   map[string]string `json:"access"`
+	Notes    []string          `json:"notes"`
+}
+
+type srcFile struct {
+	path    string
+	rel     string
+	src     []byte
+	ast     *ast.File
+	changed bool
+}
+
+func importName(f *ast.File, path string) (string, *ast.ImportSpec) {
+	for _, im := range f.Imports {
+		if strings.Trim(im.Path.Value, `"`) == path {
+			if im.Name != nil {
+				return im.Name.Name, im
+			}
+
+			return filepath.Base(path), im
+		}
+	}
+
+	return "", nil
 }
 
 func main() {
 	repo := flag.String("repo", "/repo", "checkout to read")
 	file := flag.String("file", "internal/rules/repository_impl.go", "file (relative to -repo) declaring the type")
 	typ := flag.String("type", "repository", "struct type")
-	out := flag.String("out", "", "instrumented Go file to write")
-	jsonPath := flag.String("json", "", "side file with the numbering of locks / fields")
+	outdir := flag.String("outdir", "", "directory for the instrumented copies")
+	jsonPath := flag.String("json", "", "side file with the numbering of locks / fields and the list of copies")
+	access := flag.String("access", "", "Go file with field accessors for the drivers (package of -file, build tag verif)")
 	schedPkg := flag.String("sched", "github.com/dadrus/heimdall/internal/zzverif/sched", "import path of the shim package")
 	flag.Parse()
 
-	path := filepath.Join(*repo, *file)
+	main0 := filepath.Join(*repo, *file)
+	dir := filepath.Dir(main0)
+	fset := token.NewFileSet()
 
-	src, err := os.ReadFile(path)
+	// --- all non-test files of the package, the declaring file first
+	var files []*srcFile
+
+	ents, err := os.ReadDir(dir)
 	if err != nil {
 		fail("%v", err)
 	}
 
-	fset := token.NewFileSet()
+	names := []string{filepath.Base(main0)}
 
-	f, err := parser.ParseFile(fset, path, src, 0) // comments are dropped (they would be misplaced by the rewriting)
-	if err != nil {
-		fail("parse %s: %v", path, err)
+	for _, e := range ents {
+		n := e.Name()
+		if !e.IsDir() && strings.HasSuffix(n, ".go") && !strings.HasSuffix(n, "_test.go") && n != filepath.Base(main0) {
+			names = append(names, n)
+		}
+	}
+
+	for i, n := range names {
+		p := filepath.Join(dir, n)
+
+		src, err := os.ReadFile(p)
+		if err != nil {
+			fail("%v", err)
+		}
+
+		f, err := parser.ParseFile(fset, p, src, 0) // comments are dropped (they would be misplaced by the rewriting)
+		if err != nil {
+			if i == 0 {
+				fail("parse %s: %v", p, err)
+			}
+
+			continue
+		}
+
+		files = append(files, &srcFile{path: p, rel: filepath.Join(filepath.Dir(*file), n), src: src, ast: f})
 	}
 
 	x := &instr{
@@ -665,103 +826,156 @@ func main() {
 		copyable: map[string]bool{}, atomLock: map[string]int{},
 	}
 
-	var (
-		syncSpec   *ast.ImportSpec
-		atomicName string
-		atomics    []string
-	)
-
-	for _, im := range f.Imports {
-		if strings.Trim(im.Path.Value, `"`) == "sync/atomic" {
-			atomicName = "atomic"
-			if im.Name != nil {
-				atomicName = im.Name.Name
-			}
-		}
-
-		if strings.Trim(im.Path.Value, `"`) == "sync" {
-			x.syncName = "sync"
-			if im.Name != nil {
-				x.syncName = im.Name.Name
-			}
-
-			syncSpec = im
-		}
+	// --- struct types of the package
+	type structDecl struct {
+		st   *ast.StructType
+		file *srcFile
 	}
 
-	// --- the struct
-	var st *ast.StructType
+	structs := map[string]structDecl{}
 
-	ast.Inspect(f, func(n ast.Node) bool {
-		if ts, ok := n.(*ast.TypeSpec); ok && ts.Name.Name == *typ {
-			if s, ok := ts.Type.(*ast.StructType); ok {
-				st = s
-			}
-		}
-
-		return true
-	})
-
-	if st == nil {
-		fail("type %s not found in %s", *typ, path)
-	}
-
-	var jo jsonOut
-
-	for _, fld := range st.Fields.List {
-		kind := ""
-
-		if sel, ok := fld.Type.(*ast.SelectorExpr); ok {
-			if id, ok := sel.X.(*ast.Ident); ok && x.syncName != "" && id.Name == x.syncName &&
-				(sel.Sel.Name == "Mutex" || sel.Sel.Name == "RWMutex") {
-				kind = sel.Sel.Name
-				id.Name = "sched" // the replacement
-			}
-		}
-
-		names := []string{}
-		for _, n := range fld.Names {
-			names = append(names, n.Name)
-		}
-
-		if kind != "" && len(names) == 0 {
-			names = []string{kind} // embedded
-		}
-
-		for _, n := range names {
-			if kind != "" {
-				x.lockID[n] = len(jo.Locks)
-				jo.Locks = append(jo.Locks, n)
-				jo.LockKind = append(jo.LockKind, kind)
-
+	for _, sf := range files {
+		for _, d := range sf.ast.Decls {
+			gd, ok := d.(*ast.GenDecl)
+			if !ok || gd.Tok != token.TYPE {
 				continue
 			}
 
-			x.varID[n] = len(jo.Vars)
-			jo.Vars = append(jo.Vars, n)
-
-			switch ft := fld.Type.(type) {
-			case *ast.StarExpr:
-				ts := types.ExprString(fld.Type)
-				x.ptrType[n] = ts
-				x.treeTy[ts] = true
-				x.copyable[n] = true
-				jo.PtrVars = append(jo.PtrVars, n)
-			case *ast.ArrayType:
-				x.copyable[n] = ft.Len == nil // a slice
-			case *ast.MapType, *ast.ChanType, *ast.FuncType, *ast.InterfaceType:
-				x.copyable[n] = true
-			case *ast.IndexExpr: // sync/atomic.Pointer[T]
-				if sel, ok := ft.X.(*ast.SelectorExpr); ok && sel.Sel.Name == "Pointer" {
-					if id, ok := sel.X.(*ast.Ident); ok && atomicName != "" && id.Name == atomicName {
-						atomics = append(atomics, n)
-						x.treeTy["*"+types.ExprString(ft.Index)] = true
-						jo.PtrVars = append(jo.PtrVars, n)
+			for _, sp := range gd.Specs {
+				if ts, ok := sp.(*ast.TypeSpec); ok && ts.TypeParams == nil {
+					if st, ok := ts.Type.(*ast.StructType); ok {
+						if _, dup := structs[ts.Name.Name]; !dup {
+							structs[ts.Name.Name] = structDecl{st, sf}
+						}
 					}
 				}
 			}
 		}
 	}
+
+	top, ok := structs[*typ]
+	if !ok || top.file != files[0] {
+		fail("struct type %s not found in %s", *typ, main0)
+	}
+
+	var (
+		jo       jsonOut
+		atomics  []string
+		leafType = map[string]ast.Expr{} // data leaf -> declared type
+		leafFile = map[string]*srcFile{}
+		leafPath = map[string]string{} // leaf -> explicit selector path
+		visited  = map[string]bool{}
+	)
+
+	var build func(typeName string, sd structDecl, prefix string, depth int) *snode
+
+	build = func(typeName string, sd structDecl, prefix string, depth int) *snode {
+		node := &snode{typeName: typeName, prefix: prefix}
+		syncName, _ := importName(sd.file.ast, "sync")
+		atomicName, _ := importName(sd.file.ast, "sync/atomic")
+		first := !visited[typeName]
+		visited[typeName] = true
+
+		for _, fld := range sd.st.Fields.List {
+			names := []string{}
+			for _, n := range fld.Names {
+				names = append(names, n.Name)
+			}
+
+			embedded := len(names) == 0
+			kind := ""
+
+			if sel, ok := fld.Type.(*ast.SelectorExpr); ok {
+				if id, ok := sel.X.(*ast.Ident); ok && (sel.Sel.Name == "Mutex" || sel.Sel.Name == "RWMutex") &&
+					(syncName != "" && id.Name == syncName || !first && id.Name == "sched") {
+					kind = sel.Sel.Name
+
+					if first {
+						id.Name = "sched" // the replacement
+						sd.file.changed = true
+					}
+
+					if embedded {
+						names = []string{kind}
+					}
+				}
+			}
+
+			if id, ok := fld.Type.(*ast.Ident); ok && kind == "" && depth < 8 {
+				if sub, ok := structs[id.Name]; ok {
+					if embedded {
+						names = []string{id.Name}
+					}
+
+					for _, n := range names {
+						node.fields = append(node.fields, sfield{name: n, embedded: embedded, sub: build(id.Name, sub, prefix+n+".", depth+1)})
+					}
+
+					continue
+				}
+			}
+
+			if embedded && kind == "" {
+				t := fld.Type
+				if st, ok := t.(*ast.StarExpr); ok {
+					t = st.X
+				}
+
+				switch v := t.(type) {
+				case *ast.Ident:
+					names = []string{v.Name}
+				case *ast.SelectorExpr:
+					names = []string{v.Sel.Name}
+				default:
+					continue
+				}
+			}
+
+			for _, short := range names {
+				n := prefix + short
+				node.fields = append(node.fields, sfield{name: short, embedded: embedded, leaf: n})
+				leafPath[n] = n
+
+				if kind != "" {
+					x.lockID[n] = len(jo.Locks)
+					jo.Locks = append(jo.Locks, n)
+					jo.LockKind = append(jo.LockKind, kind)
+
+					continue
+				}
+
+				x.varID[n] = len(jo.Vars)
+				jo.Vars = append(jo.Vars, n)
+				leafType[n] = fld.Type
+				leafFile[n] = sd.file
+
+				switch ft := fld.Type.(type) {
+				case *ast.StarExpr:
+					ts := types.ExprString(fld.Type)
+					x.ptrType[n] = ts
+					x.treeTy[ts] = true
+					x.copyable[n] = true
+					jo.PtrVars = append(jo.PtrVars, n)
+				case *ast.ArrayType:
+					x.copyable[n] = ft.Len == nil // a slice
+				case *ast.MapType, *ast.ChanType, *ast.FuncType, *ast.InterfaceType:
+					x.copyable[n] = true
+				case *ast.IndexExpr: // sync/atomic.Pointer[T]
+					if sel, ok := ft.X.(*ast.SelectorExpr); ok && sel.Sel.Name == "Pointer" {
+						if id, ok := sel.X.(*ast.Ident); ok && atomicName != "" && id.Name == atomicName {
+							atomics = append(atomics, n)
+							x.treeTy["*"+types.ExprString(ft.Index)] = true
+							jo.PtrVars = append(jo.PtrVars, n)
+						}
+					}
+				}
+			}
+		}
+
+		return node
+	}
+
+	root := build(*typ, top, "", 0)
 
 	// one pseudo lock per atomic pointer field, numbered after the mutexes (as the skeleton does)
 	for _, n := range atomics {
@@ -770,47 +984,254 @@ func main() {
 		jo.LockKind = append(jo.LockKind, "RWMutex")
 	}
 
-	// --- the methods
-	for _, d := range f.Decls {
-		fd, ok := d.(*ast.FuncDecl)
-		if !ok || fd.Body == nil || recvTypeName(fd) != *typ {
+	// --- the methods of the guarded type and of the structs nested in it
+	for _, sf := range files {
+		for _, d := range sf.ast.Decls {
+			fd, ok := d.(*ast.FuncDecl)
+			if !ok || fd.Body == nil {
+				continue
+			}
+
+			nodes := root.find(recvTypeName(fd))
+			if len(nodes) == 0 {
+				continue
+			}
+
+			if nodes[0] == root {
+				jo.Methods = append(jo.Methods, fd.Name.Name)
+			}
+
+			if len(nodes) > 1 {
+				x.notes = append(x.notes, "struct type "+nodes[0].typeName+" occurs more than once in the guarded type: its methods are attributed to the first occurrence")
+			}
+
+			if len(fd.Recv.List[0].Names) != 1 {
+				continue // receiver not named: it cannot touch the fields
+			}
+
+			x.recv = fd.Recv.List[0].Names[0].Obj
+			x.node = nodes[0]
+			x.env = map[*ast.Object]bool{}
+			x.syncName, _ = importName(sf.ast, "sync")
+
+			for _, p := range fd.Type.Params.List {
+				if x.treeTy[types.ExprString(p.Type)] {
+					for _, n := range p.Names {
+						if n.Obj != nil {
+							x.env[n.Obj] = true
+						}
+					}
+				}
+			}
+
+			before := fmt.Sprint(countSched(fd.Body))
+			x.block(fd.Body)
+
+			if fmt.Sprint(countSched(fd.Body)) != before {
+				sf.changed = true
+			}
+		}
+	}
+
+	// --- write the instrumented copies
+	jo.Files = map[string]string{}
+
+	if *outdir != "" {
+		if err := os.MkdirAll(*outdir, 0o755); err != nil {
+			fail("%v", err)
+		}
+	}
+
+	for _, sf := range files {
+		if !sf.changed {
 			continue
 		}
 
-		jo.Methods = append(jo.Methods, fd.Name.Name)
+		res := render(fset, sf, *schedPkg, *file)
 
-		if len(fd.Recv.List[0].Names) != 1 {
-			continue // receiver not named: it cannot touch the fields
+		if *outdir == "" {
+			os.Stdout.Write(res)
+
+			continue
 		}
 
-		x.recv = fd.Recv.List[0].Names[0].Obj
-		x.env = map[*ast.Object]bool{}
+		out := filepath.Join(*outdir, strings.TrimSuffix(filepath.Base(sf.path), ".go")+"_instrumented.go")
+		old, _ := os.ReadFile(out)
 
-		for _, p := range fd.Type.Params.List {
-			if x.treeTy[types.ExprString(p.Type)] {
-				for _, n := range p.Names {
-					if n.Obj != nil {
-						x.env[n.Obj] = true
+		if !bytes.Equal(old, res) {
+			if err := os.WriteFile(out, res, 0o644); err != nil {
+				fail("%v", err)
+			}
+		}
+
+		jo.Files[sf.rel] = out
+	}
+
+	// --- accessors for the drivers, bound by TYPE
+	if *access != "" {
+		explicit := func(leaf string) string {
+			parts := strings.Split(leaf, ".")
+			cur := root
+			out := []string{}
+
+			for _, p := range parts {
+				full, ok := cur.fullPath(p)
+				if !ok {
+					return leaf
+				}
+
+				out = append(out, full)
+
+				if f, ok := cur.field(p); ok && f.sub != nil {
+					cur = f.sub
+				}
+			}
+
+			return strings.Join(out, ".")
+		}
+
+		var index, known, def string
+
+		for _, n := range jo.Vars {
+			if _, isPtr := x.ptrType[n]; isPtr && (index == "" || strings.Contains(x.ptrType[n], "Tree")) {
+				index = n
+			}
+		}
+
+		for _, n := range jo.Vars {
+			if at, ok := leafType[n].(*ast.ArrayType); ok && at.Len == nil && known == "" {
+				known = n
+
+				for _, m := range jo.Vars {
+					if types.ExprString(leafType[m]) == types.ExprString(at.Elt) {
+						def = m
 					}
 				}
 			}
 		}
 
-		x.block(fd.Body)
+		if index == "" || known == "" || def == "" {
+			fail("cannot bind the drivers: pointer field %q, slice field %q, field of the slice's element type %q", index, known, def)
+		}
+
+		jo.Access = map[string]string{"index": index, "known": known, "default": def}
+
+		var sb strings.Builder
+
+		sb.WriteString("//go:build verif\n\n// Code generated by /verif/harness/tools/instr (field accessors for the C07 drivers, bound by type). DO NOT EDIT.\n\n")
+		sb.WriteString("package " + files[0].ast.Name.Name + "\n\n")
+
+		// imports used by the three types
+		used := map[string]*ast.ImportSpec{}
+
+		for _, leaf := range []string{index, known, def} {
+			ast.Inspect(leafType[leaf], func(n ast.Node) bool {
+				if sel, ok := n.(*ast.SelectorExpr); ok {
+					if id, ok := sel.X.(*ast.Ident); ok && id.Obj == nil {
+						for _, im := range leafFile[leaf].ast.Imports {
+							local := filepath.Base(strings.Trim(im.Path.Value, `"`))
+							if im.Name != nil {
+								local = im.Name.Name
+							}
+
+							if local == id.Name {
+								used[id.Name] = im
+							}
+						}
+					}
+				}
+
+				return true
+			})
+		}
+
+		if len(used) > 0 {
+			sb.WriteString("import (\n")
+
+			for local, im := range used {
+				sb.WriteString("\t" + local + " " + im.Path.Value + "\n")
+			}
+
+			sb.WriteString(")\n\n")
+		}
+
+		for _, a := range []struct{ name, leaf string }{{"Index", index}, {"Known", known}, {"Default", def}} {
+			ts := types.ExprString(leafType[a.leaf])
+			fmt.Fprintf(&sb, "func c07Get%s(r *%s) %s { return r.%s }\n\n", a.name, *typ, ts, explicit(a.leaf))
+			fmt.Fprintf(&sb, "func c07Set%s(r *%s, v %s) { r.%s = v }\n\n", a.name, *typ, ts, explicit(a.leaf))
+		}
+
+		fmt.Fprintf(&sb, "// the mutexes of the guarded state, in the order of their ids\nfunc c07LockAddrs(r *%s) []any {\n\treturn []any{", *typ)
+
+		for i, n := range jo.Locks {
+			if strings.HasPrefix(n, "atomic(") {
+				continue
+			}
+
+			if i > 0 {
+				sb.WriteString(", ")
+			}
+
+			sb.WriteString("&r." + explicit(n))
+		}
+
+		sb.WriteString("}\n}\n")
+
+		res, err := format.Source([]byte(sb.String()))
+		if err != nil {
+			fail("gofmt of the accessor file: %v\n%s", err, sb.String())
+		}
+
+		old, _ := os.ReadFile(*access)
+		if !bytes.Equal(old, res) {
+			if err := os.WriteFile(*access, res, 0o644); err != nil {
+				fail("%v", err)
+			}
+		}
 	}
 
-	// --- imports: add sched, drop sync if it is no longer used
+	jo.Notes = x.notes
+
+	if *jsonPath != "" {
+		b, _ := json.MarshalIndent(jo, "", " ")
+		_ = os.WriteFile(*jsonPath, b, 0o644)
+	}
+}
+
+// countSched: number of calls into the shim package below n (to see whether a method body was changed)
+func countSched(n ast.Node) int {
+	c := 0
+
+	ast.Inspect(n, func(m ast.Node) bool {
+		if sel, ok := m.(*ast.SelectorExpr); ok {
+			if id, ok := sel.X.(*ast.Ident); ok && id.Name == "sched" && id.Obj == nil {
+				c++
+			}
+		}
+
+		return true
+	})
+
+	return c
+}
+
+// render prints the rewritten file: sched import added, sync import dropped if it is no longer used
+func render(fset *token.FileSet, sf *srcFile, schedPkg, declFile string) []byte {
+	f := sf.ast
+	syncName, syncSpec := importName(f, "sync")
 	syncUsed := false
 
 	ast.Inspect(f, func(n ast.Node) bool {
 		if sel, ok := n.(*ast.SelectorExpr); ok {
-			if id, ok := sel.X.(*ast.Ident); ok && id.Name == x.syncName && id.Obj == nil && x.syncName != "" {
+			if id, ok := sel.X.(*ast.Ident); ok && syncName != "" && id.Name == syncName && id.Obj == nil {
 				syncUsed = true
 			}
 		}
 
 		return true
 	})
+
+	done := false
 
 	for _, d := range f.Decls {
 		gd, ok := d.(*ast.GenDecl)
@@ -821,28 +1242,37 @@ func main() {
 		var specs []ast.Spec
 
 		for _, sp := range gd.Specs {
-			if sp == ast.Spec(syncSpec) && !syncUsed {
+			if syncSpec != nil && sp == ast.Spec(syncSpec) && !syncUsed {
 				continue
 			}
 
 			specs = append(specs, sp)
 		}
 
-		specs = append(specs, &ast.ImportSpec{Name: ast.NewIdent("sched"), Path: &ast.BasicLit{Kind: token.STRING, Value: strconv.Quote(*schedPkg)}})
-		gd.Specs = specs
+		if !done {
+			specs = append(specs, &ast.ImportSpec{Name: ast.NewIdent("sched"), Path: &ast.BasicLit{Kind: token.STRING, Value: strconv.Quote(schedPkg)}})
+			done = true
 
-		if gd.Lparen == token.NoPos {
-			gd.Lparen = gd.Pos()
-			gd.Rparen = gd.End()
+			if gd.Lparen == token.NoPos {
+				gd.Lparen = gd.Pos()
+				gd.Rparen = gd.End()
+			}
 		}
 
-		break
+		gd.Specs = specs
+	}
+
+	if !done {
+		imp := &ast.GenDecl{Tok: token.IMPORT, Specs: []ast.Spec{
+			&ast.ImportSpec{Name: ast.NewIdent("sched"), Path: &ast.BasicLit{Kind: token.STRING, Value: strconv.Quote(schedPkg)}},
+		}}
+		f.Decls = append([]ast.Decl{imp}, f.Decls...)
 	}
 
 	var buf bytes.Buffer
 
 	// build constraints of the original file are kept
-	for _, line := range strings.Split(string(src), "\n") {
+	for _, line := range strings.Split(string(sf.src), "\n") {
 		if strings.HasPrefix(line, "package ") {
 			break
 		}
@@ -852,7 +1282,7 @@ func main() {
 		}
 	}
 
-	buf.WriteString("// Code generated by /verif/harness/tools/instr from " + *file + " (instrumented copy for property C07). DO NOT EDIT.\n\n")
+	buf.WriteString("// Code generated by /verif/harness/tools/instr from " + sf.rel + " (instrumented copy for property C07). DO NOT EDIT.\n\n")
 
 	if err := format.Node(&buf, fset, f); err != nil {
 		fail("print: %v", err)
@@ -863,21 +1293,7 @@ func main() {
 		fail("gofmt of the instrumented file: %v", err)
 	}
 
-	if *out != "" {
-		old, _ := os.ReadFile(*out)
-		if !bytes.Equal(old, res) {
-			if err := os.WriteFile(*out, res, 0o644); err != nil {
-				fail("%v", err)
-			}
-		}
-	} else {
-		os.Stdout.Write(res)
-	}
+	_ = declFile
 
-	jo.Notes = x.notes
-
-	if *jsonPath != "" {
-		b, _ := json.MarshalIndent(jo, "", " ")
-		_ = os.WriteFile(*jsonPath, b, 0o644)
-	}
+	return res
 }
